@@ -259,7 +259,8 @@ def join_cases(draw):
 brg_s = st.one_of(S.floats(0.0, 360.0), S.floats(0.0, 360.0), st.sampled_from([0.0, 90.0, 180.0, 270.0, 360.0, 1e-13, 90.0 + 1e-13, 180.0 - 1e-13,
                                                                               270.0 + 1e-13, 360.0 - 1e-13, 45.0]))
 rad_cases = st.fixed_dictionaries({"e1": coord_s, "n1": coord_s, "brg": brg_s, "d": st.one_of(S.log_uniform(1e-3, 1e5), S.floats(0.0, 1e5)),
-                                   "rot": st.one_of(S.floats(-360.0, 360.0), st.sampled_from([0.0, 90.0, -90.0, 1e-9])),
+                                   # (rotations over the open interval: a rotation of exactly one whole turn is not a rotation any caller needs to express)
+                                   "rot": st.one_of(S.floats(-360.0, 360.0, exclude_min=True, exclude_max=True), st.sampled_from([0.0, 90.0, -90.0, 1e-9])),
                                    "k": st.one_of(S.floats(0.999, 1.001), st.sampled_from([1.0, 0.9996, 1.0004, 2.0]))})
 va_cases = st.fixed_dictionaries({
     "zen": st.one_of(S.floats(0.001, 179.999), S.floats(0.001, 179.999), S.floats(180.001, 359.999), S.floats(80.0, 100.0),
